@@ -60,8 +60,14 @@ CLAIMED = {
          "GP->free), resizer_terminates_after_last_change, destroy_after_queued_resizes, bucket_at_{order,chunk,mmap}_in_bounds/_injective. "
          "Tie: the real rculfhash.c + allocators: differential tests of every pure helper, end-to-end event replay through a wrapping "
          "mm plug-in / recording allocator, partitioned 65536-bucket resize, counter-driven lazy grow/shrink with the real "
-         "COUNT_COMMIT_ORDER, destroy behind queued resizes; watchdog + independent C oracles. Partial: 'nodes found during a concurrent "
-         "resize' belongs to C05/C08; real-thread schedules are exploration only (no cooperative-scheduler tie for this component).",
+         "COUNT_COMMIT_ORDER, destroy behind queued resizes, destroy(attr) with a resize in flight, no resize work without AUTO_RESIZE; "
+         "watchdog + independent C oracles; concurrent part: the schedules of the shared lfht batch that resize the table, judged by the "
+         "resident / quarantine / gp / abort oracles (the theorems for 'contents preserved' are C08's resize_preserves_contents and "
+         "C05/C07's resident_found / grow_before_publish / reclaim_safe, audited here too). Work queue (src/workqueue.c, Wq/Model.lean, "
+         "Props/Workqueue.lean): work_exactly_once, work_fifo (a destroy work queued behind resize works runs after each of them), "
+         "flush_waits_for_all_prior, completion_lifetime, worker_no_lost_wakeup + waker_not_stuck / measure (TSO store buffers for the "
+         "plain futex := 0 stores), stop_after_drain, destroy_requires_empty; liveness queued_work_eventually_runs, "
+         "flush_eventually_returns (fairness explicit); tie: the real workqueue.c under the shim (harness/scen/wq.c, Driver/Wq.lean).",
     note="Trusted: Lean kernel; grace period as a counter; SC in the transition system; shims on pthread_create and "
          "urcu_workqueue_queue_work; destroy API contract. Observation recorded in DESIGN: __cds_lfht_resize_lazy_launch queues the work "
          "before storing resize_initiated=1 (auto-resize can stall); outside the listed properties.",
@@ -262,7 +268,11 @@ CLAIMED = {
          "mask_restored (bp: after after_fork_parent / _child the caller's signal mask equals its mask at before_fork entry, also with "
          "concurrent forkers); liveness: after_fork_child_eventually_returns, C16_full'_proved / C16_full_parent'_proved (every "
          "callback queued at the fork is eventually invoked exactly once in the child and in the parent, under explicit fairness / "
-         "'sections end' / 'no further fork' provisos; Props/LiveC16E2E.lean). Partial: lfht hooks by oracles only.",
+         "'sections end' / 'no further fork' provisos; Props/LiveC16E2E.lean). Hash-table resize worker across fork (work queue model, "
+         "Props/Workqueue.lean): pause_quiescent (once pause_worker has returned the worker is at its pause spin with nothing in hand), "
+         "pause_stays, resume_restarts / resume_returns, child_nothing_in_hand, create_worker_state, queued_work_eventually_runs in the "
+         "child; observation child_worker_never_sleeps_if_futex_inherited_negative (performance only, reproduced on the real code). "
+         "Partial: the rculfhash atfork glue (nesting counter) by the ForkWq model + oracles.",
     note="Trusted: Lean kernel; fork() clones only the calling thread with a copy of memory; documented preconditions as guards (handlers "
          "called outside read-side sections; other application threads idle and unregistered at the fork for non-bp flavors); callbacks "
          "terminate and do not call rcu_barrier or helper management; L1 ⊑ L2 on explored schedules only. Observations outside the "
